@@ -124,7 +124,7 @@ fn build(tape: &[u32], with_calls: bool) -> Option<(Built, String, Layout)> {
             None => (prog.vars.len(), &mut prog.main),
             Some(p) => (prog.procs[p].vars.len(), &mut prog.procs[p].body),
         };
-        body.insert(0, Stmt::Dim(Dim { var: vars_len - 1, name: "ZA%".into(), bounds: vec![(0, 2)], explicit_lower: false, sty: STy::B(Ty::Int), extended: false, shared: false }));
+        body.insert(0, Stmt::Dim(Dim { var: vars_len - 1, name: "ZA%".into(), bounds: vec![(0, 2)], explicit_lower: false, sty: STy::B(Ty::Int), extended: false, shared: false, redim: 0 }));
         let mut parts: Vec<String> = fault_path.split('/').map(|s| s.to_string()).collect();
         let k: usize = parts[1].parse().unwrap();
         parts[1] = (k + 1).to_string();
